@@ -210,32 +210,32 @@ def oracle(ctx, proto, pg, before, decode, xc, nm, npg, nself, xop, counters, af
     m = pg.mat.shape[2]
     # (v) input untouched
     okb, fld = snap_equal(before, snapshot(pg))
-    require(okb, P + "input-mutated:" + str(fld), f"mate() changed the parental matrix field {fld}")
+    require(okb, P + "input-mutated:" + str(fld), lambda: f"mate() changed the parental matrix field {fld}")
     # (iv) counts / order / names / families / counters
     mat = out.mat
     require(mat.shape == (2, nprog, m) and mat.dtype == pg.mat.dtype, P + "shape",
-            f"progeny matrix shape {mat.shape} dtype {mat.dtype}, expected {(2, nprog, m)} int8")
+            lambda: f"progeny matrix shape {mat.shape} dtype {mat.dtype}, expected {(2, nprog, m)} int8")
     fam = R.rep(range(nc), [a * b for a, b in zip(nm_l, np_l)])
     exp_grp = [counters[1] + f for f in fam]
     require(out.taxa_grp is not None and list(out.taxa_grp.tolist()) == exp_grp, P + "family-labels",
-            f"taxa_grp {None if out.taxa_grp is None else out.taxa_grp.tolist()} expected {exp_grp}")
+            lambda: f"taxa_grp {None if out.taxa_grp is None else out.taxa_grp.tolist()} expected {exp_grp}")
     names = list(out.taxa.tolist())
-    require(len(names) == nprog and len(set(names)) == nprog, P + "names-unique", f"names {names}")
+    require(len(names) == nprog and len(set(names)) == nprog, P + "names-unique", lambda: f"names {names}")
     exp_suffix = [str(counters[0] + i).zfill(7) for i in range(nprog)]
     pref = {nme[:-7] for nme in names}
     require([nme[-7:] for nme in names] == exp_suffix and len(pref) == 1, P + "names-counter",
-            f"names {names} expected running counter {exp_suffix} behind one constant prefix")
+            lambda: f"names {names} expected running counter {exp_suffix} behind one constant prefix")
     require(tuple(after) == (counters[0] + nprog, counters[1] + nc), P + "counters",
-            f"counters after call {tuple(after)} expected ({counters[0]+nprog},{counters[1]+nc})")
+            lambda: f"counters after call {tuple(after)} expected ({counters[0]+nprog},{counters[1]+nc})")
     # metadata carried over
     for f in ("vrnt_chrgrp", "vrnt_phypos", "vrnt_name", "vrnt_genpos", "vrnt_xoprob", "vrnt_hapgrp", "vrnt_mask",
               "vrnt_chrgrp_name", "vrnt_chrgrp_stix", "vrnt_chrgrp_spix", "vrnt_chrgrp_len"):
         require(same(getattr(out, f), before[f]), P + "metadata:" + f,
-                f"{f} of progeny {getattr(out, f)} differs from parents' {before[f]}")
+                lambda: f"{f} of progeny {getattr(out, f)} differs from parents' {before[f]}")
     # (vi) taxa grouping is a true partition
     require(out.is_grouped_taxa() and partition_ok(out.taxa_grp, out.taxa_grp_name, out.taxa_grp_stix,
                                                     out.taxa_grp_spix, out.taxa_grp_len),
-            P + "taxa-partition", f"group metadata {out.taxa_grp_name},{out.taxa_grp_stix},{out.taxa_grp_spix},{out.taxa_grp_len} for {out.taxa_grp}")
+            P + "taxa-partition", lambda: f"group metadata {out.taxa_grp_name},{out.taxa_grp_stix},{out.taxa_grp_spix},{out.taxa_grp_len} for {out.taxa_grp}")
     # (ii) mosaic predicate, independent of the reference simulator
     for i in range(nprog):
         row = xc[fam[i]]
@@ -244,14 +244,14 @@ def oracle(ctx, proto, pg, before, decode, xc, nm, npg, nself, xop, counters, af
             prev = None
             for j in range(m):
                 v = int(mat[p, i, j])
-                require(v in decode, P + "alien-allele", f"progeny {i} copy {p} marker {j} carries code {v} that no parent has")
+                require(v in decode, P + "alien-allele", lambda: f"progeny {i} copy {p} marker {j} carries code {v} that no parent has")
                 sp, st, sj = decode[v]
-                require(sj == j, P + "marker-shift", f"progeny {i} copy {p} marker {j} holds the allele of marker {sj}")
+                require(sj == j, P + "marker-shift", lambda: f"progeny {i} copy {p} marker {j} holds the allele of marker {sj}")
                 require(st in S[p], P + "wrong-parent",
-                        f"progeny {i} (cross {row.tolist()}) copy {p} marker {j} comes from taxon {st}, allowed {sorted(S[p])}")
+                        lambda: f"progeny {i} (cross {row.tolist()}) copy {p} marker {j} comes from taxon {st}, allowed {sorted(S[p])}")
                 if prev is not None and prev != (sp, st):
                     require(xop[j] > 0, P + "switch-at-zero-interval",
-                            f"progeny {i} copy {p}: source changes {prev}->{(sp, st)} in front of marker {j} whose xoprob is 0")
+                            lambda: f"progeny {i} copy {p}: source changes {prev}->{(sp, st)} in front of marker {j} whose xoprob is 0")
                 prev = (sp, st)
     # (iii) DH homozygous
     if R.IS_DH[proto]:
@@ -274,8 +274,8 @@ def oracle(ctx, proto, pg, before, decode, xc, nm, npg, nself, xop, counters, af
             break
     else:
         require(False, P + "pedigree-mismatch",
-                f"progeny differ from the pedigree model under the same crossover answers ({err or ''}); "
-                f"got {_prov(mat, decode)} expected {_prov(exp, decode) if exp is not None else None}")
+                lambda: f"progeny differ from the pedigree model under the same crossover answers ({err or ''}); "
+                + f"got {_prov(mat, decode)} expected {_prov(exp, decode) if exp is not None else None}")
 
 
 def _orders(xo):
